@@ -395,7 +395,7 @@ tp_task_restart(tp_task_p tptask) {
 	    tptask->event_flags, &tptask->tp_data);
 	if (0 != error)	{ /* Error, remove timer. */
 		debugd_break();
-		tpt_ev_del_args1(TP_EV_TIMER, &tptask->tp_data);
+		tpt_ev_del_args1(TP_EV_TIMER, &tptask->tp_timer);
 	}
 	return (error);
 }
@@ -427,7 +427,7 @@ tp_task_enable(tp_task_p tptask, int enable) {
 	error = tpt_ev_enable_args1(enable, tptask->event, &tptask->tp_data);
 	if (0 != error) {
 		debugd_break();
-		tpt_ev_enable_args1(0, TP_EV_TIMER, &tptask->tp_data);
+		tpt_ev_enable_args1(0, TP_EV_TIMER, &tptask->tp_timer);
 	}
 	return (error);
 }
